@@ -177,6 +177,15 @@ fn gen_op(rng: &mut Rng, p: &Pools, coords_ok: bool, n_prebuilt: u32) -> Op {
             } else if rng.chance(1, 3) {
                 Op::CloneEval { e, c, t }
             } else {
+                // one in five: a bounded evaluation without holidays (long uniform runs, the scan gives up) and the
+                // same expression with a country's holidays, in either order
+                if rng.chance(1, 5) {
+                    let e = rng.pick(&p.holiday_exprs).clone();
+                    let b = Ctx::Bounded(*rng.pick(&[1, 7, 30, 366, 366]));
+                    let h = Ctx::Holidays(p.pick_country(rng));
+                    let (c1, c2) = if rng.chance(2, 3) { (b, h) } else { (h, b) };
+                    return Op::Recontext { e, c1, c2, t };
+                }
                 // the second context often differs from the first in one component only
                 let c2 = match (&c, rng.below(3)) {
                     (Ctx::TzCoords(z, ..), 0 | 1) => {
@@ -185,9 +194,9 @@ fn gen_op(rng: &mut Rng, p: &Pools, coords_ok: bool, n_prebuilt: u32) -> Op {
                     }
                     (Ctx::Holidays(_), 0 | 1) => Ctx::Holidays(p.pick_country(rng)),
                     (Ctx::Custom(_), _) => Ctx::Custom(rng.below(6) as u32),
-                    (Ctx::Default, 0) | (Ctx::Bounded(_), 0 | 1) => Ctx::Bounded(*rng.pick(&[1, 2, 7, 30, 366])),
-                    (Ctx::Bounded(_), 2) => Ctx::Default,
-                    (Ctx::Bounded(_), _) => Ctx::Holidays(p.pick_country(rng)),
+                    (Ctx::Bounded(_), 0) => Ctx::Holidays(p.pick_country(rng)),
+                    (Ctx::Default, 0) | (Ctx::Bounded(_), 1) => Ctx::Bounded(*rng.pick(&[1, 2, 7, 30, 366])),
+                    (Ctx::Bounded(_), _) => Ctx::Default,
                     (Ctx::Tz(_), 0) => Ctx::Tz(rng.pick(&p.zones).to_string()),
                     (Ctx::TzHolidays(z, _), 0 | 1) => Ctx::TzHolidays(z.clone(), p.pick_country(rng)),
                     _ => gen_ctx(rng, p, false),
